@@ -464,7 +464,7 @@ Proof.
   pose proof (run_index h F) as I. pose proof (run_index (dedupb h) F') as I'.
   unfold dedupb in I'. rewrite dedupb_metas in I'. fold (dedup_first (map (map fst) h)) in I'.
   rewrite first_deliveries_dedup in I'. fold a in I. fold (dedupb h) in I'. fold a' in I'.
-  destruct I, I'. repeat split; try congruence. intros t. rewrite ii_tok0, ii_tok1. reflexivity.
+  destruct I, I'. repeat split; try congruence.
 Qed.
 
 (* the search-level observables of a fraction are functions of the LID table and the postings *)
@@ -474,10 +474,8 @@ Lemma search_frac_ext iv gt a a' t :
 Proof.
   intros E T. unfold search_frac.
   assert (L : lid_id a = lid_id a') by (unfold lid_id; rewrite E; reflexivity).
-  rewrite L, (T t).
-  assert (X : forall l, map (fun g => (g, N.of_nat (length (filter (fun l0 => mem_nat l0 (tok_lids a g)) l)))) gt
-                      = map (fun g => (g, N.of_nat (length (filter (fun l0 => mem_nat l0 (tok_lids a' g)) l)))) gt).
-  { intros l. apply map_ext. intros g. rewrite (T g). reflexivity. }
-  rewrite X. f_equal. f_equal. f_equal. apply filter_ext. intros l. f_equal. f_equal.
-  induction gt as [|g gt IH]; simpl; [reflexivity|]. rewrite (T g), IH. reflexivity.
+  rewrite L, (T t). f_equal.
+  - f_equal. apply map_ext. intros g. rewrite (T g). reflexivity.
+  - f_equal. f_equal. apply filter_ext. intros l. f_equal.
+    induction gt as [|g gt IH]; simpl; [reflexivity|]. rewrite (T g), IH. reflexivity.
 Qed.
